@@ -382,6 +382,53 @@ def ids_of(texts):
     return res
 
 
+def ask_texts(bench, storage, query, via_service):
+    from sdc11073.xml_types.pm_types import LocalizedTextWidth
+    refs, ver, langs, widths, nols = query
+    try:
+        if via_service:
+            # NumberOfLines as strings: SubElementTextListProperty(value_class=int) cannot serialise ints (see report)
+            res = bench.loc_client.get_localized_texts(refs, ver, langs, None if widths is None else [LocalizedTextWidth(w) for w in widths],
+                                                       None if nols is None else [str(n) for n in nols])
+            return ids_of(res.result.Text)
+        return ids_of(storage.filter_localized_texts(refs, ver, langs, None if widths is None else [LocalizedTextWidth(w) for w in widths], nols))
+    except Exception as ex:  # noqa: BLE001
+        return 'err ' + type(ex).__name__
+
+
+def apply_store(objs, store, storage):
+    """make the stored objects say what `store` says (in place; texts beyond len(objs) are added)"""
+    from sdc11073.xml_types.pm_types import LocalizedText, LocalizedTextWidth
+    for i, (ref, lang, ver, width, nol) in enumerate(store):
+        text = '\n'.join([f't{i}'] + ['x'] * (nol - 1))
+        tw = None if width is None else LocalizedTextWidth(width)
+        if i < len(objs):
+            o = objs[i]
+            o.text, o.Lang, o.Version, o.TextWidth = text, lang, ver, tw      # Ref is the storage key: never changed in place
+        else:
+            o = LocalizedText(text, lang=lang, ref=ref, version=ver, text_width=tw)
+            objs.append(o)
+            storage.add(o)
+
+
+def mutate_store(rng, storage, objs, store):
+    new = []
+    for ref, lang, ver, width, nol in store:
+        r = rng.random()
+        if r < 0.5:
+            nol = rng.choice([n for n in (1, 2, 3, 4) if n != nol])
+        elif r < 0.6:
+            lang = rng.choice(LANGS + [None])
+        elif r < 0.7:
+            ver = rng.choice([None, 0, 1, 2, 3, 4])
+        elif r < 0.8:
+            width = rng.choice([None] + WIDTHS)
+        new.append((ref, lang, ver, width, nol))
+    new += mk_store(rng, rng.choice([0, 0, 1, 2]))
+    apply_store(objs, new, storage)
+    return new
+
+
 def texts_line(query):
     refs, ver, langs, widths, nols = query
     return ('texts ' + ' '.join(map(enc, refs or [])) + ' | ' + ('-' if ver is None else str(ver)) + ' | ' +
@@ -409,51 +456,56 @@ def run_texts(ctx):
         store = stores[k] if k < len(stores) else mk_store(rng, rng.choice([0, 1, 2, 3, 5, 8, 12, 16]))
         via_service = k % 3 == 0
         storage = ls.LocalizationStorage()
-        fill_storage(storage, store)
+        objs = fill_storage(storage, store)
         loc.localization_storage = storage
-        lines.append('reset')
-        expect.append(None)
-        for ref, lang, ver, width, nol in store:
-            lines.append(f't {enc(ref)} {enc(lang)} ' + ('-' if ver is None else str(ver)) + ' ' +
-                         ('-' if width is None else str(WIDTHS.index(width))) + f' {nol}')
+        history = None
+        for round_no in (0, 1):
+            if round_no == 1:
+                # the storage lives on: stored texts are edited in place (other number of lines, language, version, width)
+                # and new texts are added; the same questions must be answered from what is stored NOW
+                history = {'before': list(store), 'prior_queries': prior}
+                store = mutate_store(rng, storage, objs, store)
+                ctx.count('texts:storage-changed-between-queries')
+            lines.append('reset')
             expect.append(None)
-        for pres in itertools.product([0, 1], repeat=5):
-            query = mk_query(rng, pres, via_service)
-            refs, ver, langs, widths, nols = query
+            for ref, lang, ver, width, nol in store:
+                lines.append(f't {enc(ref)} {enc(lang)} ' + ('-' if ver is None else str(ver)) + ' ' +
+                             ('-' if width is None else str(WIDTHS.index(width))) + f' {nol}')
+                expect.append(None)
+            prior = []
+            for pres in itertools.product([0, 1], repeat=5):
+                query = mk_query(rng, pres, via_service)
+                prior.append(query)
+                ids = ask_texts(bench, storage, query, via_service)
+                case = {'store': store, 'query': query, 'via_service': via_service}
+                if history:
+                    case.update(history)
+                bad = judge_texts(store, query, ids)
+                if bad:
+                    ctx.fail(bad[0] + (':after-change' if history else ''), bad[1] + (' (after the stored texts were changed)' if history else ''),
+                             {**case, 'returned_ids': ids})
+                ctx.case(case, nontrivial=bool(store), sample={**case, 'returned_ids': ids} if k == 1 and sum(pres) == 3 and not history else None)
+                ctx.count('texts:constraints-present=' + ''.join(map(str, pres)))
+                ctx.count('texts:' + ('service' if via_service else 'storage') + (':empty' if not ids else ':non-empty'))
+                lines.append(texts_line(query))
+                expect.append(('texts', {k_: v for k_, v in case.items() if k_ != 'prior_queries'}, ids))
+            # supported languages
             try:
                 if via_service:
-                    # NumberOfLines as strings: SubElementTextListProperty(value_class=int) cannot serialise ints (see report)
-                    res = bench.loc_client.get_localized_texts(refs, ver, langs, None if widths is None else [LocalizedTextWidth(w) for w in widths],
-                                                               None if nols is None else [str(n) for n in nols])
-                    ids = ids_of(res.result.Text)
+                    langs = sorted(bench.loc_client.get_supported_languages().result.Lang)
                 else:
-                    ids = ids_of(storage.filter_localized_texts(refs, ver, langs, None if widths is None else [LocalizedTextWidth(w) for w in widths], nols))
+                    langs = sorted(storage.get_supported_languages())
             except Exception as ex:  # noqa: BLE001
-                ids = 'err ' + type(ex).__name__
-            case = {'store': store, 'query': query, 'via_service': via_service}
-            bad = judge_texts(store, query, ids)
-            if bad:
-                ctx.fail(bad[0], bad[1], {**case, 'returned_ids': ids})
-            ctx.case(case, nontrivial=bool(store), sample={**case, 'returned_ids': ids} if k == 1 and sum(pres) == 3 else None)
-            ctx.count('texts:constraints-present=' + ''.join(map(str, pres)))
-            ctx.count('texts:' + ('service' if via_service else 'storage') + (':empty' if not ids else ':non-empty'))
-            lines.append(texts_line(query))
-            expect.append(('texts', case, ids))
-        # supported languages
-        try:
-            if via_service:
-                langs = sorted(bench.loc_client.get_supported_languages().result.Lang)
-            else:
-                langs = sorted(storage.get_supported_languages())
-        except Exception as ex:  # noqa: BLE001
-            langs = 'err ' + type(ex).__name__
-        exp = sorted({t[1] for t in store if t[1] is not None})
-        case = {'store': store, 'op': 'GetSupportedLanguages', 'via_service': via_service}
-        if langs != exp:
-            ctx.fail('GetSupportedLanguages:not-exact', f'languages {langs} listed, stored languages are {exp}', {**case, 'languages': langs})
-        ctx.case(case, nontrivial=bool(exp))
-        lines.append('langs')
-        expect.append(('langs', case, langs))
+                langs = 'err ' + type(ex).__name__
+            exp = sorted({t[1] for t in store if t[1] is not None})
+            case = {'store': store, 'op': 'GetSupportedLanguages', 'via_service': via_service}
+            if history:
+                case['before'] = history['before']
+            if langs != exp:
+                ctx.fail('GetSupportedLanguages:not-exact', f'languages {langs} listed, stored languages are {exp}', {**case, 'languages': langs})
+            ctx.case(case, nontrivial=bool(exp))
+            lines.append('langs')
+            expect.append(('langs', case, langs))
     if ctx.driver_ok:
         out = ctx.driver('drv_c20', lines)
         for o, e in zip(out, expect):
@@ -527,7 +579,13 @@ def replay(ctx, obj):
     from sdc11073.xml_types.pm_types import LocalizedTextWidth
     store = [tuple(t) for t in case['store']]
     storage = ls.LocalizationStorage()
-    fill_storage(storage, store)
+    if 'before' in case:   # history: the earlier content, the earlier questions, then the change
+        objs = fill_storage(storage, [tuple(t) for t in case['before']])
+        for q in case.get('prior_queries', []):
+            ask_texts(None, storage, q, False)
+        apply_store(objs, store, storage)
+    else:
+        fill_storage(storage, store)
     if case.get('op') == 'GetSupportedLanguages':
         langs = sorted(storage.get_supported_languages())
         exp = sorted({t[1] for t in store if t[1] is not None})
